@@ -79,14 +79,16 @@ def showOuts (os : List Out) : String :=
   if os.isEmpty then "-" else ";".intercalate ((sortCloseRuns os).map showOut)
 
 structure St where
-  cfg : Cfg := {}
+  cfg : Cfg := { mapped := fun a => decide (10 ≤ a ∧ a < 17) }     -- address ids 10…16 = v4-mapped forms (harness convention)
   st : State := {}
   /-- the addresses ever used (for printing the peer index) -/
-  addrs : Nat := 16
+  addrs : Nat := 20
   /-- number of model inputs so far (the ghost token handed to `step`) -/
   n : Nat := 0
   /-- `batching.enabled`: which loop flavour orders an epoll batch -/
   batched : Bool := false
+  /-- dual-stack listeners ("::"): an IPv4 peer `p` appears there under its v4-mapped address, id `10 + p` -/
+  dual : List Nat := []
 
 def showState (s : St) : String :=
   let st := s.st
@@ -131,14 +133,27 @@ def parseKV (cfg : Cfg) (kv : String) : Option Cfg :=
       else none
   | _ => none
 
-def parseDgs (s : String) : Option (List (Addr × Bytes)) :=
-  (s.splitOn ",").mapM (fun t =>
+/-- one item of a `dg` op: `<peer>:<payload>` or `<peer>:<payload>!` (key() fails for this datagram) -/
+def parseDgs (s : String) : Option (List (Addr × Bytes × Bool)) :=
+  (s.splitOn ",").mapM (fun t0 =>
+    let bad := t0.endsWith "!"
+    let t := if bad then (t0.dropRight 1) else t0
     match t.splitOn ":" with
     | [p, pl] =>
       match p.toNat?, parsePayload pl with
-      | some a, some b => some (a, b)
+      | some a, some b => some (a, b, bad)
       | _, _ => none
     | _ => none)
+
+/-- the model inputs of one `recvfrom` loop: maximal runs of datagrams with a good key, one `recvKeyFail` per datagram whose key() fails
+(an empty datagram makes no key() call at all) -/
+def dgInputs (dual : Bool) (lid : Nat) : List (Addr × Bytes × Bool) → List (Addr × Bytes) → List In
+  | [], acc => if acc.isEmpty then [] else [.recvFrom lid acc.reverse]
+  | (p, b, bad) :: rest, acc =>
+    let a := if dual && p < 7 then p + 10 else p
+    if bad && !b.isEmpty then
+      (if acc.isEmpty then [] else [In.recvFrom lid acc.reverse]) ++ In.recvKeyFail lid 1 :: dgInputs dual lid rest []
+    else dgInputs dual lid rest ((a, b) :: acc)
 
 def parseCmd : List String → Option In
   | ["connect", p] => p.toNat?.map (fun a => In.connect a (peerV6 a))
@@ -146,6 +161,7 @@ def parseCmd : List String → Option In
     match lid.toNat?, p.toNat? with
     | some l, some a => some (.via l a (peerV6 a))
     | _, _ => none
+  | ["via", lid, _, "!"] => lid.toNat?.map In.viaKeyFail
   | ["close", sid] => sid.toNat?.map In.close
   | ["send", sid, pl, ans] =>
     match sid.toNat?, parsePayload pl, parseAns ans with
@@ -167,10 +183,10 @@ structure BEv where
   out : Bool
   ins : List In
 
-def parseEv : List String → Option BEv
+def parseEv (dual : List Nat) : List String → Option BEv
   | ["dg", lid, dgs] =>
     match lid.toNat?, parseDgs dgs with
-    | some l, some ds => some ⟨some (.lst l), false, [.recvFrom l ds]⟩
+    | some l, some ds => some ⟨some (.lst l), false, dgInputs (dual.contains l) l ds []⟩
     | _, _ => none
   | ["cdg", sid, pls] =>
     match sid.toNat?, (pls.splitOn ",").mapM parsePayload with
@@ -211,8 +227,8 @@ partial def mergeSame : List BEv → List BEv
 
 def step (s : St) : List String → St × String
   | "reset" :: kvs =>
-    match kvs.foldlM parseKV ({} : Cfg) with
-    | some cfg => ({ cfg := cfg, batched := kvs.contains "batch=1" }, "ok")
+    match kvs.foldlM parseKV ({ mapped := fun a => decide (10 ≤ a ∧ a < 17) } : Cfg) with
+    | some cfg => ({ cfg := cfg, batched := kvs.contains "batch=1", addrs := 20 }, "ok")
     | none => (s, "bad-op")
   | ["listen"] =>
     let lid := s.st.nextLid
@@ -222,8 +238,16 @@ def step (s : St) : List String → St × String
     let lid := s.st.nextLid
     let r := doStep s (.listen true)
     (r.1, s!"L{lid} | {showState r.1}")
+  | ["listenD"] =>
+    let lid := s.st.nextLid
+    let r := doStep { s with dual := lid :: s.dual } (.listen true)
+    (r.1, s!"L{lid} | {showState r.1}")
+  | ["via", lid, _, "!"] =>
+    match lid.toNat? with
+    | some l => doStep s (.viaKeyFail l)
+    | none => (s, "bad-op")
   | "multi" :: rest =>
-    match (splitAt ";" rest).mapM parseEv with
+    match (splitAt ";" rest).mapM (parseEv s.dual) with
     | none => (s, "bad-op")
     | some evs =>
       let armed := evs.filter (armedAt s.st)
@@ -231,7 +255,7 @@ def step (s : St) : List String → St × String
       doSteps s (ordered.flatMap (·.ins))
   | ["dg", lid, dgs] =>
     match lid.toNat?, parseDgs dgs with
-    | some l, some ds => doStep s (.recvFrom l ds)
+    | some l, some ds => doSteps s (dgInputs (s.dual.contains l) l ds [])
     | _, _ => (s, "bad-op")
   | ["cdg", sid, pls] =>
     match sid.toNat?, (pls.splitOn ",").mapM parsePayload with
